@@ -99,7 +99,10 @@ def run(ctx, model_ok):
     per = ctx.n(6, 60)
     for (digits, rz, rnd) in configs:
         dec, thou = rng.choice(SEPS)
-        cfg = [{"op": "cfg", "dec": dec, "thou": thou, "num": [digits, rz, rnd], "pct": [digits, rz, rnd], "money": [rz, rnd]}]
+        # percentages and money have their own settings: they differ from the number settings in half of the configurations
+        pd, prz, prnd = (digits, rz, rnd) if rng.random() < 0.5 else (rng.randint(0, 9), rng.random() < 0.5, rng.random() < 0.5)
+        mrz, mrnd = (rz, rnd) if rng.random() < 0.5 else (rng.random() < 0.5, rng.random() < 0.5)
+        cfg = [{"op": "cfg", "dec": dec, "thou": thou, "num": [digits, rz, rnd], "pct": [pd, prz, prnd], "money": [mrz, mrnd]}]
         vals = values(rng, digits)
         if not ctx.quick():
             for _ in range(8):
@@ -111,7 +114,7 @@ def run(ctx, model_ok):
             if kind == "number":
                 text, want = f"[NUMBER:{t}]", spec_format(v, dec, thou, digits, rz, rnd)
             elif kind == "percent":
-                text, want = f"[PERCENT:{t}]", "%" + spec_format(v, dec, thou, digits, rz, rnd)
+                text, want = f"[PERCENT:{t}]", "%" + spec_format(v, dec, thou, pd, prz, prnd)
             elif kind == "money":
                 code = rng.choice(curs)
                 info = cfgj["currencies"][code]
@@ -119,7 +122,7 @@ def run(ctx, model_ok):
                     continue
                 lit = t.replace(".", dec)
                 text = f"{lit} {code.lower()}"
-                p = spec_format(v, dec, thou, info["decimalDigits"], rz, rnd)
+                p = spec_format(v, dec, thou, info["decimalDigits"], mrz, mrnd)
                 sym = info["symbol"]
                 want = (sym + (" " if info["spaceBetweenAmountAndSymbol"] else "") + p) if info["symbolOnLeft"] else (p + (" " if info["spaceBetweenAmountAndSymbol"] else "") + sym)
             else:
